@@ -77,3 +77,145 @@ Example C07_example :
   | _ => False
   end.
 Proof. vm_compute. repeat split; reflexivity. Qed.
+
+(* ------------------------------------------------------------------------------------------------------
+   Added in build session 4 (statements re-stated from the proof files by harness tooling; each is closed by
+   exact). *)
+From SplipyModel Require Import Proofs.ObjEval Proofs.SplitTiling Proofs.RestrictDirEval Proofs.SplitEndToEnd Proofs.SplitCompose.
+Open Scope R_scope.
+Theorem C07_split_insert_spec :
+  forall (tol : R) (o : obj R) (d p : nat) (k ks : list R),
+         split_hyps tol o d p k ks ->
+         exists (so : obj R) (kf : list R),
+           split_insert tol {| b_order := p; b_knots := k; b_per1 := 0 |} o d ks = Ok so /\
+           wf_obj_R tol so /\
+           length (o_bases so) = length (o_bases o) /\
+           (forall i : nat, i <> d -> nth i (o_bases so) dflt_basis = nth i (o_bases o) dflt_basis) /\
+           nth d (o_bases so) dflt_basis = {| b_order := p; b_knots := kf; b_per1 := 0 |} /\
+           sorted (kn kf) /\
+           st p kf = st p k /\
+           en p kf = en p k /\
+           Permutation.Permutation kf (ins_list p k ks ++ k) /\
+           (forall v : R, In v kf <-> In v k \/ In v ks) /\
+           (forall v : R, ~ In v ks -> mult kf v = mult k v) /\
+           Forall (fun x : R => mult kf x = p) ks /\
+           Forall (mult_p p kf) ks /\
+           (forall ts : list R,
+            dom_all tol o ts ->
+            Forall (fun x : R => param_ok tol k x (nth d ts 0)) ks -> obj_eval tol so ts = obj_eval tol o ts).
+Proof. exact @split_insert_spec. Qed.
+Print Assumptions C07_split_insert_spec.
+
+Theorem C07_split_succeeds :
+  forall (tol : R) (o : obj R) (d p : nat) (k ks : list R),
+         split_hyps tol o d p k ks ->
+         forall fuel : nat, (1 <= fuel)%nat -> exists pieces : list (obj R), obj_split fuel tol o d ks = Ok pieces.
+Proof. exact @obj_split_ok. Qed.
+Print Assumptions C07_split_succeeds.
+
+Theorem C07_split_count :
+  forall (tol : R) (o : obj R) (d p : nat) (k ks : list R),
+         split_hyps tol o d p k ks ->
+         forall (fuel : nat) (pieces : list (obj R)),
+         obj_split fuel tol o d ks = Ok pieces -> length pieces = S (length ks).
+Proof. exact @split_length. Qed.
+Print Assumptions C07_split_count.
+
+Theorem C07_split_tiling :
+  forall (tol : R) (o : obj R) (d p : nat) (k ks : list R),
+         split_hyps tol o d p k ks ->
+         forall (fuel : nat) (pieces : list (obj R)),
+         obj_split fuel tol o d ks = Ok pieces ->
+         forall j : nat,
+         (j <= length ks)%nat ->
+         let pj := nth j pieces o in
+         let bj := nth d (o_bases pj) dflt_basis in
+         wf_obj_R tol pj /\
+         length (o_bases pj) = length (o_bases o) /\
+         (forall i : nat, i <> d -> nth i (o_bases pj) dflt_basis = nth i (o_bases o) dflt_basis) /\
+         b_order bj = p /\
+         b_per1 bj = 0%nat /\
+         b_start bj = nth j (ends p k ks) 0 /\
+         b_end bj = nth (S j) (ends p k ks) 0 /\ nth j (ends p k ks) 0 + 2 * tol <= nth (S j) (ends p k ks) 0.
+Proof. exact @split_tiling. Qed.
+Print Assumptions C07_split_tiling.
+
+Theorem C07_split_then_evaluate :
+  forall (tol : R) (o : obj R) (d p : nat) (k ks : list R),
+         split_hyps tol o d p k ks ->
+         forall (fuel : nat) (pieces : list (obj R)),
+         obj_split fuel tol o d ks = Ok pieces ->
+         forall (j : nat) (ts : list R),
+         (j <= length ks)%nat ->
+         piece_param tol o d p k ks j ts -> obj_eval tol (nth j pieces o) ts = obj_eval tol o ts.
+Proof. exact @split_then_evaluate. Qed.
+Print Assumptions C07_split_then_evaluate.
+
+Theorem C07_piece_param_intro :
+  forall (tol : R) (o : obj R) (d p : nat) (k ks : list R),
+         split_hyps tol o d p k ks ->
+         forall (j : nat) (ts : list R),
+         (j <= length ks)%nat ->
+         (forall i : nat,
+          (i < length (o_bases o))%nat -> i <> d -> in_dom tol (nth i (o_bases o) dflt_basis) (nth i ts 0)) ->
+         nth j (ends p k ks) 0 <= nth d ts 0 <= nth (S j) (ends p k ks) 0 ->
+         nth d ts 0 <= nth (S j) (ends p k ks) 0 - 2 * tol \/ j = length ks ->
+         j = 0%nat \/
+         In (nth j (ends p k ks) 0) k \/
+         nth d ts 0 = nth j (ends p k ks) 0 \/ nth j (ends p k ks) 0 + tol <= nth d ts 0 ->
+         piece_param tol o d p k ks j ts.
+Proof. exact @piece_param_intro. Qed.
+Print Assumptions C07_piece_param_intro.
+
+Theorem C07_split_piece_eval :
+  forall tol : R,
+         0 < tol ->
+         forall o : obj R,
+         wf_obj_R tol o ->
+         forall d : nat,
+         (d < length (o_bases o))%nat ->
+         b_per1 (nth d (o_bases o) dflt_basis) = 0%nat ->
+         forall a m : nat,
+         (a + m <= b_nfun (nth d (o_bases o) dflt_basis))%nat ->
+         2 * tol <=
+         kn (b_knots (nth d (o_bases o) dflt_basis)) (a + m) -
+         kn (b_knots (nth d (o_bases o) dflt_basis)) (a + b_order (nth d (o_bases o) dflt_basis) - 1) ->
+         forall ts : list R,
+         (forall i : nat,
+          (i < length (o_bases o))%nat -> i <> d -> in_dom tol (nth i (o_bases o) dflt_basis) (nth i ts 0)) ->
+         kn (b_knots (nth d (o_bases o) dflt_basis)) (a + b_order (nth d (o_bases o) dflt_basis) - 1) <= 
+         nth d ts 0 <= kn (b_knots (nth d (o_bases o) dflt_basis)) (a + m) ->
+         BasisEval.snap1 (b_knots (nth d (o_bases o) dflt_basis)) tol (nth d ts 0) <=
+         kn (b_knots (nth d (o_bases o) dflt_basis)) (a + m) - tol \/
+         kn (b_knots (nth d (o_bases o) dflt_basis)) (a + m) =
+         kn (b_knots (nth d (o_bases o) dflt_basis))
+           (length (b_knots (nth d (o_bases o) dflt_basis)) - b_order (nth d (o_bases o) dflt_basis)) ->
+         obj_eval tol
+           (obj_along o d
+              {|
+                b_order := b_order (nth d (o_bases o) dflt_basis);
+                b_knots :=
+                  slice_list (b_knots (nth d (o_bases o) dflt_basis)) a
+                    (a + m + b_order (nth d (o_bases o) dflt_basis));
+                b_per1 := 0
+              |} (slice_matrix (b_nfun (nth d (o_bases o) dflt_basis)) a m)) ts = obj_eval tol o ts.
+Proof. exact @split_piece_eval. Qed.
+Print Assumptions C07_split_piece_eval.
+
+Theorem C07_split_skips_outside :
+  forall (o : obj R) (d : nat) (s e x : R) (rest : list R) (lk lc : nat),
+         x <= s \/ e <= x -> split_pieces o d s e (x :: rest) lk lc = split_pieces o d s e rest lk lc.
+Proof. exact @split_pieces_skip. Qed.
+Print Assumptions C07_split_skips_outside.
+
+Theorem C07_hypotheses_satisfiable :
+  split_hyps (1 / 100)
+           {|
+             o_bases := [{| b_order := 3; b_knots := [0; 0; 0; 1; 2; 3; 3; 3]; b_per1 := 0 |}];
+             o_cps := [[0]; [1]; [3]; [2]; [5]];
+             o_dim := 1;
+             o_rat := false
+           |} 0 3 [0; 0; 0; 1; 2; 3; 3; 3] [1; 3 / 2].
+Proof. exact @ex_hyps. Qed.
+Print Assumptions C07_hypotheses_satisfiable.
+
